@@ -7,7 +7,7 @@ import re
 from harness import core, inputs, xdoc
 
 GEN = ['gen_tables', 'gen_regex', 'gen_config', 'gen_escapes', 'gen_core']
-THEOREMS = ['C07_definition_scanners_are_the_source', 'C07_first_wins', 'C07_document_lookup', 'C07_containers_transparent', 'C07_two_phase', 'C07_no_output']
+THEOREMS = ['C07_reference_in_sentence', 'C07_reference_resolves', 'C07_reference_hypotheses', 'C07_definition_scanners_are_the_source', 'C07_first_wins', 'C07_document_lookup', 'C07_containers_transparent', 'C07_two_phase', 'C07_no_output']
 TRUSTED = ['the parser model (Model/Block.v, Build.v, Inline.v, CoreTokens.v): hand-written control flow, regenerated patterns/tables/configuration; '
            'tied by X-doc (tree, Document.footnotes with order, line numbers)',
            'the definition-placement generator (oracle side)']
@@ -124,6 +124,41 @@ def gen_case(rng):
     return text, exp, len(defs)
 
 
+SENT_WORDS = ['see', 'the', 'note', 'x1', 'end.', 'q)', '(r', 'a-b', 'c+d', 'e=f', 'k,', '"l"', "m'", 'n:', 'o;', '2.5', '#g', 'h%', '@i', 'j?', '}', '^', '/p', '>']
+
+
+def gen_sentence(rng):
+    """the class of C07_reference_in_sentence / C07_reference_resolves: ONE shortcut reference [w] in a one-line sentence of trigger-free text,
+    no '(' right after it; its definitions (1-3, the first one decides) before or after the sentence, possibly inside a quote, labels spelled differently"""
+    key = rng.choice(list(VARIANTS))
+    forms = [v for v in VARIANTS[key] if '\n' not in v]
+    pre = ' '.join(rng.choice(SENT_WORDS) for _ in range(rng.randint(0, 3)))
+    post = ' '.join(rng.choice(SENT_WORDS) for _ in range(rng.randint(0, 3)))
+    pre = pre + rng.choice([' ', ' (', ': "']) if pre else rng.choice(['', 'a '])
+    post = rng.choice([' ', ')', '" ', ', ', '.']) + post if post else rng.choice(['', '.'])
+    if post.startswith('('):
+        post = ' ' + post
+    w = rng.choice(forms)
+    sentence = (pre + '[' + w + ']' + post).strip(' ')
+    if not sentence[0].isalnum() and sentence[0] != '[':
+        sentence = 'so ' + sentence
+    defs = []
+    for i in range(rng.randint(1, 3)):
+        defs.append(('[%s]: /t%d%s' % (rng.choice(forms), i, rng.choice(['', ' "T%d"' % i])), '/t%d' % i))
+    blocks = [('s', sentence)] + [('d', d[0]) for d in defs]
+    order = list(range(len(blocks)))
+    rng.shuffle(order)
+    lines, first_def = [], None
+    for j in order:
+        kind, l = blocks[j]
+        if kind == 'd' and first_def is None:
+            first_def = l
+        q = '> ' if (kind == 'd' and rng.random() < 0.3) else ''
+        lines += [q + l, '']
+    m = re.match(r'\[.*?\]: (\S+)(?: "(.*)")?$', first_def)
+    return '\n'.join(lines), sentence, w, m.group(1), m.group(2) or ''
+
+
 def worker(text):
     from mistletoe import Document
     from mistletoe.html_renderer import HtmlRenderer
@@ -183,11 +218,25 @@ def run(ctx, only=None):
                     ctx.failing.append({'interface': 'oracle', 'input': {'text': text, 'use': u, 'label': lab},
                                         'what': 'a %s reference does not resolve to the first matching definition in document order' % form,
                                         'observed': got, 'expected': hit, 'kf': None})
+    # the class of the unbounded theorem C07_reference_resolves on the implementation: one shortcut reference in a plain sentence
+    scases = [gen_sentence(rng) for _ in range(600 if ctx.quick() else 12000)]
+    with mp.Pool(core.NPROC) as pool:
+        souts = pool.map(worker, [c[0] for c in scases], chunksize=50)
+    esc = lambda x: html.escape(x, quote=False)
+    for (text, sentence, w, dest, title), (out, fns) in zip(scases, souts):
+        ctx.count('evaluations')
+        ctx.count('reference_sentences')
+        i = sentence.index('[' + w + ']')
+        want = '<p>%s<a href="%s"%s>%s</a>%s</p>' % (esc(sentence[:i]), dest, ' title="%s"' % title if title else '', esc(w), esc(sentence[i + len(w) + 2:]))
+        if fns is None or want not in out:
+            ctx.failing.append({'interface': 'oracle(reference sentence)', 'input': {'text': text},
+                                'what': 'a shortcut reference in a plain sentence is not one link to the first definition of its label in document order, between the text before and after it',
+                                'observed': out, 'expected': want, 'kf': None})
     ctx.cov['definitions_per_document'] = {str(k): v for k, v in sorted(placements.items())}
     ctx.count('distinct_nontrivial', len(nontriv))
     ctx.sample({'text': cases[0][0], 'expected(use, (dest,title), label, form)': cases[0][1], 'html': outs[0][0]})
     # model vs implementation on the same documents and on spec-derived ones
-    xdoc.run(ctx, texts[:1500 if ctx.quick() else 20000] + inputs.spec_texts(), cfgs=(0, 2))
+    xdoc.run(ctx, texts[:1500 if ctx.quick() else 20000] + [c[0] for c in scases[:300 if ctx.quick() else 4000]] + inputs.spec_texts(), cfgs=(0, 2))
 
 
 def replay(ctx, obj):
